@@ -10,6 +10,7 @@ comma-separated ints (`1,2,0`; a network node or Voronoi index is a single int);
   new cell|fixed|g2d | set a c|- | moveto a c | moverel a key | move a Dir k | remove a
   tryrandom 0|1 | randempty d... | randcell d...           -> result + full observation dump
   conns c | nbhd c r ic | nbprop c | mask c r ic           -> result only
+  nbagents c r ic                                          -> agents in the (memoised) neighbourhood, sorted
 """
 from __future__ import annotations
 
@@ -252,6 +253,9 @@ def exc_name(e):
     raise e
 
 
+QUERIES = ("conns", "nbhd", "nbprop", "mask", "nbagents")
+
+
 class Header:
     """parsed scenario header"""
 
@@ -384,6 +388,8 @@ class Impl:
 
             return "ok " + " ".join(fmt_name(tuple(x)) for x in sorted(map(tuple, np.argwhere(m).tolist())))
         cell = sp[self.h.key(w[1])]
+        if k == "nbagents":
+            return "ok " + " ".join(map(str, sorted(a._vidx for a in cell.get_neighborhood(r, ic).agents)))
         style = w[4] if len(w) > 4 else "p"
         if style == "k":
             res = cell.get_neighborhood(radius=r, include_center=ic)
@@ -400,7 +406,7 @@ class Impl:
     def line(self, w):
         if self.space is None:
             return "err NoSpace"
-        q = w[0] in ("conns", "nbhd", "nbprop", "mask")
+        q = w[0] in QUERIES
         try:
             res = self.query(w) if q else self.mutate(w)
         except Exception as e:  # mapped to the protocol's small enum; anything else is re-raised
@@ -748,8 +754,10 @@ def gen_c06(R, rejecting=False, n_ops=None, header=None):
             new_agent()
         elif k < 0.83:
             emit(f"tryrandom {R.randint(0, 1)}")
-        elif k < 0.95:
+        elif k < 0.93:
             emit("randempty " + " ".join(map(str, gen_draws(R, impl, R.random() < 0.9))))
+        elif k < 0.96:
+            emit(f"nbagents {R.choice(names)} {R.choice([1, 1, 2, 3])} {R.randint(0, 1)}")
         elif k < 0.97:
             emit(f"randcell {R.randrange(0, 100)}")
         elif k < 0.985:
@@ -775,9 +783,22 @@ def oracle_c06(sc, obs, reject_clause=True):
     names = cell_names(h)
     cap = h.cap
     prev = None
+    conn = None
     for line, o in zip(sc.lines[1:], obs[1:]):
         w = line.split()
-        if w[0] in ("conns", "nbhd", "nbprop", "mask"):
+        if w[0] in QUERIES:
+            if w[0] == "nbagents" and prev is not None and o.startswith("ok") and int(w[2]) >= 1:
+                # a (memoised) neighbourhood shows the agents that are in its cells *now*
+                conn = conn or spec_connections(h)
+                key = h.key(w[1])
+                if key in conn:
+                    cells = within(conn, key, int(w[2]))
+                    if w[3] != "1":
+                        cells.discard(key)
+                    pocc = {t.partition(":")[0]: t.partition(":")[2].split(".") for t in prev["occ"]}
+                    want = sorted(int(x) for c in cells for x in pocc.get(fmt_name(c), []))
+                    if [int(x) for x in o.split()[1:]] != want:
+                        bad.append(f"nbhd-agents: `{line}` gave {o.split()[1:]}, the cells within reach hold {want}")
             continue
         res, d = parse_dump(o)
         if not d:
